@@ -97,3 +97,54 @@ def unit_batcher():
     U.assume("a batched iterable is a finite sequence evaluated once; tuple inputs (lock-step batching) are covered by the bounded layer only")
     U.assume("integer // is Python floor division on mathematical integers (nonlinear obligations use z3's NLA)")
     return U
+
+
+def unit_compare():
+    """compare_pos_in_iterables is multiset equality: result <=> every value occurs equally often in a and in b.
+    cnt(s, v, n) = number of occurrences of v among the first n elements of s (recursive definition); everything the proof needs about
+    it - bounds, absence, presence, monotonicity, the effect of deleting one position - is a lemma proved by induction here."""
+    U = Unit("C19/compare_pos_in_iterables", "C19")
+    G = U.module("windpyutils/generic.py")
+    S = SeqS(ANY)
+    U.var("v", ANY)
+    U.spec_fun("cnt", [S, ANY, INT], INT)
+    U.rec_def("cnt", ["s", "v", "n"], "implies(n <= 0, cnt(s, v, n) == 0) and "
+                                      "implies(n >= 1, cnt(s, v, n) == cnt(s, v, n - 1) + ite(s[n - 1] == v, 1, 0))")
+    P = {"ls": S, "lv": ANY, "ln": INT}
+    u = "unfold('cnt', ls, lv, ln)"
+    U.lemma("cnt_bounds", P, [], ["0 <= cnt(ls, lv, ln) and cnt(ls, lv, ln) <= max(ln, 0)"], induct="ln", unfold=[u])
+    U.lemma("cnt_absent", P, ["forall(h, 0, ln, ls[h] != lv)"], ["cnt(ls, lv, ln) == 0"], induct="ln", unfold=[u])
+    U.lemma("cnt_present", dict(P, lh=INT), ["0 <= lh and lh < ln and ls[lh] == lv"], ["cnt(ls, lv, ln) >= 1"], induct="ln",
+            unfold=[u, "lemma_inst('cnt_bounds', ls, lv, ln - 1)"])
+    U.lemma("cnt_mono", dict(P, lm=INT), ["ln <= lm"], ["cnt(ls, lv, ln) <= cnt(ls, lv, lm)"], induct="lm",
+            unfold=["unfold('cnt', ls, lv, lm)", "unfold('cnt', ls, lv, ln)"])
+    # lt = ls with position lp deleted
+    U.lemma("cnt_delete", {"ls": S, "lt": S, "lp": INT, "lv": ANY, "ln": INT},
+            ["0 <= lp and lp < len(ls) and len(lt) == len(ls) - 1", "forall(j, 0, lp, lt[j] == ls[j])",
+             "forall(j, lp, len(lt), lt[j] == ls[j + 1])", "ln <= len(lt)"],
+            ["cnt(lt, lv, ln) == ite(ln <= lp, cnt(ls, lv, ln), cnt(ls, lv, ln + 1) - ite(ls[lp] == lv, 1, 0))"], induct="ln",
+            unfold=["unfold('cnt', lt, lv, ln)", "unfold('cnt', ls, lv, ln)", "unfold('cnt', ls, lv, ln + 1)"])
+    U.var("h", INT)
+    m = G.function("compare_pos_in_iterables", {"a": S, "b": S}, BOOL, locals={"x": ANY})
+    m.ghost_entry("g_b0 = b")
+    lp = m.loop(1)
+    lp.invariant("forall(v, cnt(b, v, len(b)) + cnt(a, v, _i1) == cnt(g_b0, v, len(g_b0)))", "remaining+consumed=original(per-value)")
+    lp.use_at_init("forall(v, unfold('cnt', a, v, 0))")
+    lp.ghost_at_begin("g_b = b")
+    # facts the ValueError exit needs about x = a[_i1 - 1]: absent from b => count 0; one more occurrence in a; counts grow with the prefix
+    lp.use_at_begin("lemma_inst('cnt_absent', b, x, len(b))")
+    lp.use_at_begin("unfold('cnt', a, x, _i1)")
+    lp.use_at_begin("lemma_inst('cnt_mono', a, x, _i1, len(a))")
+    lp.use_at_end("forall(v, lemma_inst('cnt_delete', g_b, b, _removed_at, v, len(b)))")
+    lp.use_at_end("forall(v, unfold('cnt', g_b, v, len(g_b)))")
+    lp.use_at_end("forall(v, unfold('cnt', a, v, _i1))")
+    m.ghost_exit("g_bc = b")           # the local list at the exit (b in a postcondition is the caller's argument)
+    m.use_exit("forall(v, unfold('cnt', g_bc, v, 0))")
+    m.use_exit("lemma_inst('cnt_present', g_bc, g_bc[0], len(g_bc), 0)")
+    eq = "forall(v, cnt(a, v, len(a)) == cnt(g_b0, v, len(g_b0)))"
+    m.ensures("implies(result, %s)" % eq, "True=>same-multiset")
+    m.ensures("implies(%s, result)" % eq, "same-multiset=>True")
+    U.verify(None, "compare_pos_in_iterables")
+    U.assume("the two iterables are finite sequences evaluated once; elements are an uninterpreted sort with equality (== is an equivalence)")
+    U.assume("list.remove(x): ValueError iff x not in the list, otherwise deletes the first position holding x (engine rule, DESIGN §2.3)")
+    return U
